@@ -810,27 +810,46 @@ func (f *FuncVC) convert(st *State, v *Val, from, to types.Type) *Val {
 // by its source text: byte(T>>k) / byte(T) groups are the idiom for writing T
 // as big-endian bytes.  "low": a lower byte of such a group; "top": the byte
 // with the largest shift (it decides whether T fits); "": an ordinary narrowing.
-var shiftArg = regexp.MustCompile(`^(.*?)\s*>>\s*(\d+)$`)
+var shiftArg = regexp.MustCompile(`^(.*?)>>(\d+)$`)
 
 func (f *FuncVC) byteExtractKind(from types.Type) string {
-	src := f.srcAt(f.curPos) // e.g. byte(x >> 8)
+	nospace := func(t string) string {
+		return strings.Join(strings.Fields(t), "")
+	}
+	src := nospace(f.srcAt(f.curPos)) // e.g. byte(x>>8)
 	k := strings.Index(src, "(")
 	if k < 0 || !strings.HasSuffix(src, ")") {
 		return ""
 	}
-	arg := strings.TrimSpace(src[k+1 : len(src)-1])
-	fnSrc := f.eng.funcSource(f.fn)
+	arg := src[k+1 : len(src)-1]
+	fnSrc := nospace(f.eng.funcSource(f.fn))
+	strip := func(t string) string {
+		for len(t) >= 2 && t[0] == '(' && matchParen(t, 0) == len(t)-1 {
+			t = t[1 : len(t)-1]
+		}
+		return t
+	}
+	// shifts applied to the term t anywhere in the function: t>>k or (t)>>k
 	shiftsOf := func(t string) []int {
 		var out []int
-		re := regexp.MustCompile(`\(\s*` + regexp.QuoteMeta(t) + `\s*>>\s*(\d+)\s*\)`)
-		for _, m := range re.FindAllStringSubmatch(fnSrc, -1) {
-			n, _ := strconv.Atoi(m[1])
-			out = append(out, n)
+		for _, pat := range []string{regexp.QuoteMeta(t) + `>>(\d+)`, `\(` + regexp.QuoteMeta(t) + `\)>>(\d+)`} {
+			re := regexp.MustCompile(pat)
+			for _, m := range re.FindAllStringSubmatchIndex(fnSrc, -1) {
+				// the match must start at a term boundary
+				if m[0] > 0 {
+					c := fnSrc[m[0]-1]
+					if c == '_' || c == '.' || (c >= '0' && c <= '9') || (c >= 'a' && c <= 'z') || (c >= 'A' && c <= 'Z') {
+						continue
+					}
+				}
+				n, _ := strconv.Atoi(fnSrc[m[2]:m[3]])
+				out = append(out, n)
+			}
 		}
 		return out
 	}
 	if m := shiftArg.FindStringSubmatch(arg); m != nil {
-		t := strings.TrimSpace(m[1])
+		t := strip(m[1])
 		n, _ := strconv.Atoi(m[2])
 		mx := n
 		for _, s := range shiftsOf(t) {
@@ -855,7 +874,7 @@ func (f *FuncVC) byteExtractKind(from types.Type) string {
 		}
 		return "top"
 	}
-	if len(shiftsOf(arg)) > 0 {
+	if len(shiftsOf(strip(arg))) > 0 {
 		return "low"
 	}
 	return ""
